@@ -525,10 +525,19 @@ static CONF_UPDATE_HOOK(log_rescan_type)
     log_rescan_conf(&node_->parent->base);
 }
 
+/** Compares two destinations by name.  Unlike log types, destination
+ * names are case sensitive: "file:a.log" and "file:A.log" are two files.
+ */
+static int log_destination_compare(const void *a_, const void *b_)
+{
+    char * const *a = a_, * const *b = b_;
+    return strcmp(*a, *b);
+}
+
 static void log_init(void)
 {
     reg_exit_func(log_cleanup);
-    log_destinations.compare = set_compare_charp;
+    log_destinations.compare = log_destination_compare;
     log_destinations.cleanup = log_destination_cleanup;
     log_vtables.compare = set_compare_charp;
     log_types.compare = set_compare_charp;
